@@ -114,9 +114,44 @@ def st_project():
         return {'kind': 'project', 'mods': [list(m) for m in mods], 'order': None}
 
     @st.composite
+    def ifacechain(draw):
+        """An interface defined one to three packages deep and moved by a re-export (possibly twice), with implementers that
+        recorded it under its original name (same module, analysed before the move), under the public name and under an alias."""
+        depth = draw(st.integers(0, 2))
+        pkgs = ['top', 'top.pkg', 'top.pkg.sub'][:depth + 1]
+        home = pkgs[-1]
+        how = draw(st.sampled_from(['decorator', 'classImplements', 'implements-in-body']))
+        impl = 'from zope.interface import Interface, implementer, classImplements, implements\nclass I(Interface):\n    \"\"\"iface\"\"\"\n    def im(): pass\n'
+        if draw(st.booleans()):
+            impl += 'class J(I):\n    def jm(): pass\n'
+        if how == 'decorator':
+            impl += '@implementer(I)\nclass Shelf:\n    def im(self): pass\n'
+        elif how == 'classImplements':
+            impl += 'class Shelf:\n    def im(self): pass\nclassImplements(Shelf, I)\n'
+        else:
+            impl += 'class Shelf:\n    implements(I)\n    def im(self): pass\n'
+        mods = []
+        exporter = draw(st.integers(0, depth))
+        second = draw(st.booleans()) and exporter > 0
+        for i, full in enumerate(pkgs):
+            body = ''
+            if i == exporter:
+                body = 'from %s._impl import I\n__all__ = [\'I\']\n' % home
+            elif second and i == 0:
+                body = 'from %s import I\n__all__ = [\'I\']\n' % pkgs[exporter]
+            mods.append((full.rsplit('.', 1)[-1], full.rsplit('.', 1)[0] if '.' in full else None, True, body))
+        mods.append(('_impl', home, False, impl))
+        if draw(st.booleans()):
+            mods.append(('user', 'top', False, 'from zope.interface import implementer\nfrom %s import I\nfrom %s._impl import I as Old\n@implementer(I)\nclass Basket:\n    pass\n@implementer(Old)\nclass Crate:\n    pass\n' % (pkgs[exporter], home)))
+        return {'kind': 'project', 'mods': [list(m) for m in mods], 'order': None}
+
+    @st.composite
     def p(draw):
-        if draw(st.integers(0, 5)) == 0:
+        k_ = draw(st.integers(0, 11))
+        if k_ in (0, 1):
             return draw(chain())
+        if k_ == 2:
+            return draw(ifacechain())
         n = draw(st.integers(2, 4))
         mods = []
         mods.append(('p', None, True, draw(st.one_of(st.just(''), st_module()))))
@@ -152,6 +187,23 @@ def st_project():
 
 
 # ------------------------------------------------------------------ invariants
+
+def _follow_moved(s: Any, name: str) -> Any:
+    """The registered object that a module's table of local names gives for the last component of `name`, when the rest of the name
+    is a registered module or class (at most 8 hops; None when it leads nowhere)."""
+    for _ in range(8):
+        if '.' not in name:
+            return None
+        head, last = name.rsplit('.', 1)
+        holder = s.allobjects.get(head)
+        table = getattr(holder, '_localNameToFullName_map', None)
+        if table is None or last not in table:
+            return None
+        name = table[last]
+        if name in s.allobjects:
+            return s.allobjects[name]
+    return None
+
 
 def invariants(s: Any, finished: bool) -> List[Tuple[str, str]]:
     from pydoctor import model
@@ -233,6 +285,13 @@ def invariants(s: Any, finished: bool) -> List[Tuple[str, str]]:
                     if io_ is not None and getattr(io_, 'isinterface', False):
                         if c.fullName() not in [getattr(x, 'fullName', lambda: x)() if not isinstance(x, str) else x for x in getattr(io_, 'implementedby_directly', [])]:
                             out.append(('I7-implements', '%r implements %r but is not in its implementedby_directly' % (c.fullName(), iname)))
+                    elif io_ is None and finished:
+                        # a name that is not in the registry must not be the place an analysed interface was moved away from
+                        # (the module's own table of names says where it went): the implementer has to follow it
+                        tgt = _follow_moved(s, iname)
+                        if tgt is not None and getattr(tgt, 'isinterface', False):
+                            out.append(('I7-implements', '%r implements %r, where the interface now registered as %r used to be: the name was not updated and %r does not list the class' % (
+                                c.fullName(), iname, tgt.fullName(), tgt.fullName())))
             for x in getattr(c, 'implementedby_directly', []) or []:
                 xo = x if not isinstance(x, str) else s.allobjects.get(x)
                 if xo is not None and c.fullName() not in (getattr(xo, 'implements_directly', []) or []):
